@@ -111,6 +111,12 @@ func scenario(w *vt.Writer, t *conc.Target, ops []*op, G, K int, sc int) {
 		}
 	}
 	// ---- concurrent phase
+	nClass := 0 // ops are ordered: the class's operations first, then Handle.* / registry.* reads
+	for _, o := range ops {
+		if !strings.HasPrefix(o.name, "Handle.") && !strings.HasPrefix(o.name, "registry.") {
+			nClass++
+		}
+	}
 	res := make([][]result, G)
 	start := make(chan struct{})
 	var wg sync.WaitGroup
@@ -119,11 +125,26 @@ func scenario(w *vt.Writer, t *conc.Target, ops []*op, G, K int, sc int) {
 		go func(g int) {
 			defer wg.Done()
 			buf := make([]result, 0, K)
+			// the goroutine's own schedule of calls: 3 of 4 calls go to the primitive's operations, the rest to
+			// handle reads / registry lookups; fixed before the barrier
+			gr := vt.Rng(int64(sc)*4099 + int64(g)*17 + 5)
+			sched := make([]*op, K)
+			for i := range sched {
+				if gr.Intn(4) < 3 {
+					sched[i] = ops[gr.Intn(nClass)]
+				} else {
+					sched[i] = ops[nClass+gr.Intn(len(ops)-nClass)]
+				}
+			}
+			pick := make([]int, K)
+			for i := range pick {
+				pick[i] = gr.Intn(1 << 20)
+			}
 			<-start
 			for i := 0; i < K; i++ {
-				o := ops[(g*5+i*3+sc)%len(ops)]
+				o := sched[i]
 				ins := inputs[o.name]
-				x := ins[(g+i)%len(ins)]
+				x := ins[pick[i]%len(ins)]
 				buf = append(buf, run1(o, x.in, x.msg))
 			}
 			res[g] = buf
